@@ -82,6 +82,8 @@ pub struct Stats {
     pub machinery: Option<String>,
     pub wall_s: f64,
     pub samples: Vec<Vec<String>>,
+    /// situations reached by at least one execution (bits of `oracle::SITUATIONS`)
+    pub cover: u64,
 }
 
 pub struct Caps {
@@ -111,6 +113,7 @@ struct SharedSearch {
     transitions: AtomicU64,
     env_steps: AtomicU64,
     results: Mutex<Agg>,
+    cover: AtomicU64,
 }
 
 #[derive(Default)]
@@ -173,6 +176,7 @@ pub fn explore(cfg: &Cfg, caps: &Caps) -> Stats {
         transitions: AtomicU64::new(0),
         env_steps: AtomicU64::new(0),
         results: Mutex::new(Agg::default()),
+        cover: AtomicU64::new(0),
     });
     let capped: Arc<Mutex<Option<String>>> = Arc::new(Mutex::new(None));
     let threads = caps.threads.max(1);
@@ -232,6 +236,9 @@ pub fn explore(cfg: &Cfg, caps: &Caps) -> Stats {
                             shared.merged.fetch_add(1, Ordering::Relaxed);
                         }
                         local_outcomes.insert(r.outcome_sig);
+                        if r.cover != 0 {
+                            shared.cover.fetch_or(r.cover, Ordering::Relaxed);
+                        }
                         if r.diverged.is_some() || !r.violations.is_empty() || r.points.len() > 0 {
                             let mut agg = shared.results.lock().unwrap();
                             agg.max_points = agg.max_points.max(r.points.len());
@@ -320,6 +327,7 @@ pub fn explore(cfg: &Cfg, caps: &Caps) -> Stats {
         machinery: agg.machinery,
         wall_s: start.elapsed().as_secs_f64(),
         samples: Vec::new(),
+        cover: shared.cover.load(Ordering::Relaxed),
     }
 }
 
